@@ -379,6 +379,8 @@ func CodecFor(proto string) XCodec {
 		return Bolt{}
 	case "boltv2":
 		return BoltV2{}
+	case "dubbo":
+		return Dubbo{}
 	}
 	return nil
 }
